@@ -1,13 +1,16 @@
 """C14 -- malformed input is rejected only through the documented exception family.
 
 Two parts:
- * theorems (coq/Props/C14.v): for every modelled decoder/parser the exception-faithful model
-   never leaves the family (`*_no_escape`), for ALL inputs;
- * this module: the obligation list = every public entry point that takes str/bytes (built
-   reflectively from the package, so a new entry point is picked up), each driven with generic
-   junk and structure-aware mutations of valid encodings.  Entry points that have a model are in
-   addition compared with it (MODEL_MAP).  The rest is differential fuzzing only -- a test, not a
-   proof -- and the evidence lists which is which.
+ * theorems (coq/Props/C14.v, lemmas in coq/Lemmas/NoEscape*.v): for every modelled decoder / parser /
+   deserialiser / validator / constructor the exception-faithful model never leaves the family
+   (`*_no_escape`), for ALL inputs; where the faithful model does leave it the full statement is refuted with
+   a witness and the guard under which it holds is a `_partial` theorem (WifDecoder net_ver);
+ * this module: the obligation list = every public entry point that takes str/bytes (built reflectively from
+   the package, so a new entry point is picked up), each driven with generic junk and structure-aware mutations
+   of valid encodings ("<entry>" cases: exception family + wall clock).  Entry points that have a model are in
+   addition compared with it on the same inputs ("model:<entry>" cases, MODEL_MAP below).  The rest is
+   differential fuzzing only -- a test, not a proof -- and the evidence lists which is which
+   (coverage.exhaustive_subdomains).
 """
 import time
 
@@ -18,13 +21,21 @@ from bip_utils.bip.bip38.bip38_ec import Bip38EcKeysGenerator
 from framework import Func, IN_FAMILY, exn_name
 
 MANIFEST = {
-    "text": "For the modelled decoders/parsers: Coq theorems that the exception-faithful model never leaves the "
-            "documented family, for all inputs; for all ~190 str/bytes entry points (enumerated reflectively): "
-            "junk + structure-aware mutation run checking the exception class and a wall-clock bound.",
-    "note": "Entry points without a model are covered by fuzzing only (listed in the evidence); third-party "
-            "exception behaviour is observed, not proved; 'promptly' is a wall-clock test.",
-    "technique": "Coq proof of no-escape for modelled entry points + reflective entry-point census + mutation fuzzing "
-                 "against the exception family",
+    "text": "Coq theorems (one per modelled entry point, ~85: text/wire codecs, path parsers, BIP-39 and the other "
+            "mnemonic decoders/validators/generators, seed generators, extended-key and SLIP-32 deserialisers, WIF, "
+            "BIP-38, EC key byte constructors, master key from seed, 27 address decoders) that the exception-faithful "
+            "model never leaves the documented family, for all inputs and arbitrary hash/KDF/curve oracles; for all "
+            "~235 str/bytes entry points (enumerated reflectively): junk + structure-aware mutation run checking the "
+            "exception class and a wall-clock bound, and for the ~120 modelled ones a differential comparison with the "
+            "extracted model on the same inputs.",
+    "note": "Entry points without a model (Bech32/SegWit/CashAddr codecs and the address decoders on them, Cardano and "
+            "Monero addresses, wallet-level constructors) are covered by fuzzing only (listed in the evidence); the "
+            "Bech32-based address pipelines are proved relative to the codec decoder staying in the family; third-party "
+            "exception behaviour is observed, not proved; 'promptly' is a wall-clock test; the master-key loop's "
+            "termination is not a theorem (in_family_or_fuel).",
+    "technique": "Coq proof of no-escape for modelled entry points (error-site analysis: IndexError/OverflowError sites "
+                 "shown unreachable after the preceding length checks) + reflective entry-point census + mutation "
+                 "fuzzing against the exception family + model/implementation differential on the fuzz stream",
     "ref": "7/C14",
 }
 RULE = ("Inputs per entry point: fixed junk list (empty, 1-3 symbols, NUL, non-ASCII, non-BMP, lone surrogate, "
@@ -671,12 +682,12 @@ def build_model_map():
         "AptosAddrDecoder": lambda p: (lambda m, x: m.call("addr.aptos_decode", x)),
         # Base32 / SS58 pipelines of Model/AddrText.v over the merged codec models (group addrtext); curve tag of the
         # key-validity oracle: 2 ed25519, 3 ed25519-blake2b, 4 sr25519
-        "AlgoAddrDecoder": lambda p: (lambda m, x: m.call("addrtext.algo_decode", x)),
-        "XlmAddrDecoder": lambda p: (lambda m, x: m.call("addrtext.xlm_decode", int(p["addr_type"].value), x)),
-        "FilSecp256k1AddrDecoder": lambda p: (lambda m, x: m.call("addrtext.fil_decode", x)),
-        "NanoAddrDecoder": lambda p: (lambda m, x: m.call("addrtext.nano_decode", x)),
-        "NimAddrDecoder": lambda p: (lambda m, x: m.call("addrtext.nim_decode", x)),
-        "SubstrateEd25519AddrDecoder": lambda p: (lambda m, x: m.call("addrtext.substrate_decode", 2, int(p["ss58_format"]), x)),
+        "AlgoAddrDecoder": lambda p: (lambda m, x: m.call("addrtext.algo_addr_decode", x)),
+        "XlmAddrDecoder": lambda p: (lambda m, x: m.call("addrtext.xlm_addr_decode", int(p["addr_type"].value), x)),
+        "FilSecp256k1AddrDecoder": lambda p: (lambda m, x: m.call("addrtext.fil_addr_decode", x)),
+        "NanoAddrDecoder": lambda p: (lambda m, x: m.call("addrtext.nano_addr_decode", x)),
+        "NimAddrDecoder": lambda p: (lambda m, x: m.call("addrtext.nim_addr_decode", x)),
+        "SubstrateEd25519AddrDecoder": lambda p: (lambda m, x: m.call("addrtext.substrate_addr_decode", 2, int(p["ss58_format"]), x)),
     }
     for name, e in ENTRIES.items():
         if e["meta"] and e["meta"][0] in addr:
@@ -684,7 +695,7 @@ def build_model_map():
             if dname == "P2PKHAddrDecoder" and set(params) != {"net_ver"}:
                 continue
             MM[name] = M(addr[dname](params))
-    MM["SubstrateSr25519AddrDecoder.DecodeAddr"] = M(lambda m, x: m.call("addrtext.substrate_decode", 4, 0, x))
+    MM["SubstrateSr25519AddrDecoder.DecodeAddr"] = M(lambda m, x: m.call("addrtext.substrate_addr_decode", 4, 0, x))
     MM["SplToken.GetAssociatedTokenAddress"] = M(
         lambda m, x: m.call("serbip.spl_get_ata", x, "EPjFWdd5AufqSSqeM2qN1xzybapC8G4wEGGkZwyTDt1v"))
     for n in MM:
